@@ -149,33 +149,74 @@ example :
        .packet false (.ok (honestMsg liveEnv (fun i d => Sym.share i d) 2 2))]).proc.ending = some true := by
   decide
 
-/-- **life_accept_in_update_reduces** (the provable part of liveness over the life cycle): when the proposal is accepted inside `baseParty.Update` (`cast … accept`
-as the first cast message, whatever verify packets arrived before it), the party is exactly the round of
-`one_faulty_cannot_block`, started with the packets the processor had filed under the block hash. -/
+/-- The cache holding only what was parked under the block hash. -/
+def parkedOf (env : Env) (acc : List (VMsg G)) : Lru (List (VMsg G)) :=
+  if acc.isEmpty then Lru.empty futureCap else ⟨futureCap, [(env.hash, acc)]⟩
+
+theorem park_parkedOf (env : Env) (acc : List (VMsg G)) (m : VMsg G) :
+    park (parkedOf env acc) env.hash m = parkedOf env (acc ++ [m]) := by
+  cases acc with
+  | nil => simp [parkedOf, park, Lru.get, Lru.peek, Lru.add, Lru.contains, Lru.empty, futureCap]
+  | cons x xs =>
+    simp [parkedOf, park, Lru.get, Lru.peek, Lru.add, Lru.contains, Lru.remove, Lru.empty, futureCap]
+
+theorem parkedOf_peek (env : Env) (acc : List (VMsg G)) :
+    ((parkedOf env acc).peek env.hash).getD [] = acc ∧ ((parkedOf env acc).remove env.hash) = Lru.empty futureCap := by
+  cases acc with
+  | nil => simp [parkedOf, Lru.peek, Lru.remove, Lru.empty]
+  | cons x xs => simp [parkedOf, Lru.peek, Lru.remove, Lru.empty]
+
+theorem initWith_stray (c : Crypto G) (env : Env) (p : List MsgId) (f : List (VMsg G)) :
+    (Proc.initWith c env p f).stray = Lru.empty futureCap := by
+  unfold Proc.initWith settle
+  split; · rfl
+  split <;> rfl
+
+/-- Packets filed under the block hash while no party exists, then a cast message accepted inside
+`baseParty.Update`: the life cycle is in the signing stage with exactly the processor of
+`Model/Round.lean`, started with the cast message's id and fed the parked packets. -/
+theorem parked_then_cast (c : Crypto G) (env : Env) (ord : List (VMsg G) → List (VMsg G))
+    (key0 : Data) (mid : MsgId) :
+    ∀ (pre acc : List (VMsg G)), (∀ m ∈ pre, m.blockHash = env.hash) →
+      (Life.run c env ord { (Life.new key0 : Life G) with parked := parkedOf env acc }
+        (pre.map (fun m => Event.packet env.blockExists (.ok m)) ++ [Event.cast mid .accept])).stage = .signing ∧
+      (Life.run c env ord { (Life.new key0 : Life G) with parked := parkedOf env acc }
+        (pre.map (fun m => Event.packet env.blockExists (.ok m)) ++ [Event.cast mid .accept])).key0 = key0 ∧
+      (Life.run c env ord { (Life.new key0 : Life G) with parked := parkedOf env acc }
+        (pre.map (fun m => Event.packet env.blockExists (.ok m)) ++ [Event.cast mid .accept])).proc =
+        dispatch c env (Proc.initWith c env [mid] (ord [])) (acc ++ pre) := by
+  intro pre
+  induction pre with
+  | nil =>
+    intro acc _
+    have hp := parkedOf_peek env acc
+    refine ⟨rfl, rfl, ?_⟩
+    simp only [List.map_nil, List.nil_append, Life.run, Life.step, Life.onCast, Life.new, Life.enterSigning,
+      Life.pfuture, hp.1, hp.2, List.append_nil]
+    congr 1
+    have := initWith_stray c env [mid] (ord ([] : List (VMsg G)))
+    cases hq : Proc.initWith c env [mid] (ord ([] : List (VMsg G))) with
+    | mk party mgr done stray ending =>
+      rw [hq] at this
+      simp only at this
+      rw [this]
+  | cons m rest ih =>
+    intro acc hm
+    have h1 : m.blockHash = env.hash := hm m (by simp)
+    have hw : env.withChain env.blockExists = env := rfl
+    have := ih (acc ++ [m]) (fun x hx => hm x (by simp [hx]))
+    simp only [List.map_cons, List.cons_append, Life.run, Life.step, Life.onPacket, decode, Life.new, hw, h1,
+      park_parkedOf]
+    simp only [Life.new, List.append_assoc, List.singleton_append] at this
+    exact this
+
+/-- **life_accept_in_update_reduces**: the processor after `pre` (parked) and an accepted cast message. -/
 theorem life_accept_in_update_reduces (c : Crypto G) (env : Env) (ord : List (VMsg G) → List (VMsg G))
     (key0 : Data) (mid : MsgId) (pre : List (VMsg G)) (hpre : ∀ m ∈ pre, m.blockHash = env.hash) :
     (Life.run c env ord (Life.new key0)
       (pre.map (fun m => Event.packet env.blockExists (.ok m)) ++ [Event.cast mid .accept])).proc =
     dispatch c env (Proc.initWith c env [mid] (ord [])) pre := by
-  have key : ∀ (pre : List (VMsg G)) (acc : List (VMsg G)), (∀ m ∈ pre, m.blockHash = env.hash) →
-      (Life.run c env ord { (Life.new key0 : Life G) with pfuture := acc }
-        (pre.map (fun m => Event.packet env.blockExists (.ok m)) ++ [Event.cast mid .accept])).proc =
-      dispatch c env (Proc.initWith c env [mid] (ord [])) (acc ++ pre) := by
-    intro pre
-    induction pre with
-    | nil =>
-      intro acc _
-      simp [Life.run, Life.step, Life.onCast, Life.new, Life.enterSigning]
-    | cons m rest ih =>
-      intro acc hm
-      have h1 : m.blockHash = env.hash := hm m (by simp)
-      have hw : env.withChain env.blockExists = env := rfl
-      simp only [List.map_cons, List.cons_append, Life.run, Life.step, Life.onPacket, decode, Life.new, hw]
-      simp only [h1, beq_self_eq_true, if_true]
-      have := ih (acc ++ [m]) (fun x hx => hm x (by simp [hx]))
-      simp only [Life.new, List.append_assoc, List.singleton_append] at this
-      exact this
-  have := key pre [] hpre
+  have := (parked_then_cast c env ord key0 mid pre [] hpre).2.2
   simp only [List.nil_append] at this
   exact this
 
@@ -241,35 +282,15 @@ theorem life_one_faulty_cannot_block_in_update (c : Crypto G) (env : Env) (hsrc 
     l.proc.party.rs.generated = some (some (gs env.hash), some (gs env.prevRandom)) := by
   intro l
   -- the state right after the cast message
-  have key : ∀ (pre : List (VMsg G)) (acc : List (VMsg G)), (∀ m ∈ pre, m.blockHash = env.hash) →
-      let l1 := Life.run c env ord { (Life.new key0 : Life G) with pfuture := acc }
-        (pre.map (fun m => Event.packet env.blockExists (.ok m)) ++ [Event.cast mid .accept])
-      l1.stage = .signing ∧ l1.key0 = key0 ∧
-      l1.proc = dispatch c env (Proc.initWith c env [mid] (ord [])) (acc ++ pre) := by
-    intro pre
-    induction pre with
-    | nil =>
-      intro acc _
-      simp [Life.run, Life.step, Life.onCast, Life.new, Life.enterSigning]
-    | cons m rest ih =>
-      intro acc hm
-      have h1 : m.blockHash = env.hash := hm m (by simp)
-      have hw : env.withChain env.blockExists = env := rfl
-      simp only [List.map_cons, List.cons_append, Life.run, Life.step, Life.onPacket, decode, Life.new, hw]
-      simp only [h1, beq_self_eq_true, if_true]
-      have := ih (acc ++ [m]) (fun x hx => hm x (by simp [hx]))
-      simp only [Life.new, List.append_assoc, List.singleton_append] at this
-      exact this
+  have h1 := parked_then_cast c env ord key0 mid pre [] hpre
+  simp only [List.nil_append] at h1
   have h1 : (Life.run c env ord (Life.new key0)
         (pre.map (fun m => Event.packet env.blockExists (.ok m)) ++ [Event.cast mid .accept])).stage = .signing ∧
       (Life.run c env ord (Life.new key0)
         (pre.map (fun m => Event.packet env.blockExists (.ok m)) ++ [Event.cast mid .accept])).key0 = key0 ∧
       (Life.run c env ord (Life.new key0)
         (pre.map (fun m => Event.packet env.blockExists (.ok m)) ++ [Event.cast mid .accept])).proc =
-        dispatch c env (Proc.initWith c env [mid] (ord [])) pre := by
-    have := key pre [] hpre
-    simp only [List.nil_append] at this
-    exact this
+        dispatch c env (Proc.initWith c env [mid] (ord [])) pre := h1
   have hl2 : l = Life.run c env ord (Life.run c env ord (Life.new key0)
       (pre.map (fun m => Event.packet env.blockExists (.ok m)) ++ [Event.cast mid .accept]))
       (late.map (Event.packet false)) := lifeRun_append c env ord _ _ _
@@ -290,5 +311,99 @@ theorem life_one_faulty_cannot_block_in_update (c : Crypto G) (env : Env) (hsrc 
       exact ⟨a, b, by simpa using cne⟩)
   rw [hproc]
   exact ⟨this.1, this.2.1⟩
+
+/-! ### the parked-message cache is an LRU of 50 keys
+
+KNOWN FINDING `parked-shares-evicted-by-lru`, replayed on the implementation by the searcher
+(`lead-lru-evict-*`). -/
+
+/-- The cache never holds more keys than its capacity. -/
+theorem park_bounded (l : Lru (List (VMsg G))) (k : Data) (m : VMsg G) (h : l.items.length ≤ l.cap) :
+    (park l k m).items.length ≤ l.cap ∧ (park l k m).cap = l.cap := by
+  unfold park Lru.get
+  cases hp : l.peek k with
+  | none =>
+    simp only [Option.getD_none, List.nil_append]
+    unfold Lru.add
+    split
+    · simp [Lru.remove]
+      have := List.length_filter_le (fun e : Data × List (VMsg G) => !(e.1 == k)) l.items
+      -- present: the key is replaced, the length does not grow beyond the old one
+      rename_i hc
+      have hpos : 0 < l.items.length := by
+        simp only [Lru.contains, List.any_eq_true] at hc
+        obtain ⟨e, he, _⟩ := hc
+        exact List.length_pos_of_mem he
+      have hlt : (l.items.filter (fun e => !(e.1 == k))).length < l.items.length := by
+        simp only [Lru.contains, List.any_eq_true] at hc
+        obtain ⟨e, he, hek⟩ := hc
+        apply List.length_filter_lt_length_iff_exists.mpr
+        exact ⟨e, he, by simp [hek]⟩
+      omega
+    · simp only [List.length_take, List.length_cons]
+      exact ⟨Nat.min_le_left _ _, trivial⟩
+  | some v =>
+    simp only [Option.getD_some]
+    unfold Lru.add
+    have hc : Lru.contains { l with items := (k, v) :: (l.remove k).items } k = true := by
+      simp [Lru.contains]
+    rw [if_pos hc]
+    have hmem : ∃ e ∈ l.items, (e.1 == k) = true := by
+      unfold Lru.peek at hp
+      cases hf : l.items.find? (fun e => e.1 == k) with
+      | none => simp [hf] at hp
+      | some e => exact ⟨e, List.mem_of_find?_eq_some hf, by simpa using List.find?_some hf⟩
+    obtain ⟨e, he, hek⟩ := hmem
+    have hlt : (l.items.filter (fun e => !(e.1 == k))).length < l.items.length :=
+      List.length_filter_lt_length_iff_exists.mpr ⟨e, he, by simp [hek]⟩
+    simp only [Lru.remove, List.filter_cons, beq_self_eq_true, Bool.not_true, Bool.false_eq_true, if_false,
+      List.length_cons, List.filter_filter, Bool.and_self]
+    refine ⟨?_, ?_⟩
+    · omega
+    · first | rfl | trivial
+
+/-- Liveness with arbitrary packets between the parked genuine shares and the cast message. -/
+def FullStatementParkedLiveness : Prop :=
+  ∀ (c : Crypto Sym) (env : Env), env.bindsHash = true → env.blockExists = false → 0 < env.groupSize →
+    ∀ (sh : Id → Data → Sym) (gs : Data → Sym), Lawful c env sh gs →
+      ∀ (key0 : Data) (mid : MsgId) (early late : List (Wire Sym)) (honest : List (Id × MsgId)),
+        (honest.map (·.1)).Nodup → groupK env.groupSize ≤ honest.length →
+        (∀ p ∈ honest, p.1 ∈ env.pkKnown ∧ Wire.ok (honestMsg env sh p.1 p.2) ∈ early ++ late) →
+        (Life.run c env id (Life.new key0)
+          (early.map (Event.packet false) ++ [Event.cast mid .accept] ++ late.map (Event.packet false))).proc.ending
+          = some true
+
+/-- a message filed under another block hash `d` -/
+def otherKeyMsg (d : Data) : VMsg Sym :=
+  { mid := 100 + d, blockHash := d, signer := 7, idShape := .ok, signerNonZero := true, dataHash := d,
+    sig := .junk false, rand := .junk false }
+
+/-- **Counterexample**: group of 3 (k = 2); honest member 1's share is parked under the block hash before
+any party exists; 50 messages filed under 50 other hashes follow; the LRU (capacity 50 keys) evicts the
+block hash; the cast message is accepted; honest member 2's share arrives live: one share, no block. -/
+theorem parked_liveness_counterexample : ¬ FullStatementParkedLiveness := by
+  intro h
+  have hl : Lawful (symCrypto 2 [0, 1, 2]) liveEnv (fun i d => Sym.share i d) (fun d => Sym.group d) :=
+    symCrypto_lawful liveEnv (by decide)
+  have := h (symCrypto 2 [0, 1, 2]) liveEnv rfl rfl (by decide) _ _ hl 9 1000
+    (.ok (honestMsg liveEnv (fun i d => Sym.share i d) 1 1) :: (List.range 50).map (fun j => .ok (otherKeyMsg (10 + j))))
+    [.ok (honestMsg liveEnv (fun i d => Sym.share i d) 2 2)]
+    [(1, 1), (2, 2)] (by decide) (by decide)
+    (by
+      intro p hp
+      simp only [List.mem_cons, List.not_mem_nil, or_false] at hp
+      rcases hp with rfl | rfl
+      · exact ⟨by decide, by simp⟩
+      · exact ⟨by decide, by simp⟩)
+  exact absurd this (by decide +kernel)
+
+/-- With 49 other keys nothing is evicted and the same history finalises the block (the boundary). -/
+example :
+    (Life.run (symCrypto 2 [0, 1, 2]) liveEnv id (Life.new 9)
+      ((Wire.ok (honestMsg liveEnv (fun i d => Sym.share i d) 1 1) ::
+          (List.range 49).map (fun j => Wire.ok (otherKeyMsg (10 + j)))).map (Event.packet false) ++
+        [Event.cast 1000 .accept] ++
+        [Event.packet false (.ok (honestMsg liveEnv (fun i d => Sym.share i d) 2 2))])).proc.ending = some true := by
+  decide +kernel
 
 end Rangers.Props.C15
